@@ -3,7 +3,7 @@ CONSTANTS
   MaxLen = 4
   StyleIds = {1, 2, 3}
   LHIds = {1, 2, 3, 4}
-  Variant = "fixed"
+  Variant = "crlf"
   Strict = FALSE
   Gen = TRUE
 SPECIFICATION Spec
